@@ -93,6 +93,49 @@ func (Fam) Gen(r *rand.Rand, i int) string {
 		}
 	}
 	a, b := genBig(r, ba), genBig(r, bb)
+	if (k == "int.mul" || k == "uint.mul" || k == "dec.mulint") && r.Intn(3) == 0 {
+		// products right at the range boundary: bit lengths adding up to the limit (or one more / less),
+		// mantissas near the top or the bottom of their bit range, every sign combination
+		lim := ba
+		if k == "uint.mul" {
+			lim = 256
+		}
+		total := lim + 1 + r.Intn(3) - 1 // lim, lim+1, lim+2
+		la := 1 + r.Intn(total-1)
+		lb := total - la
+		mk := func(l int) *big.Int {
+			x := new(big.Int).Lsh(one, uint(l)) // 2^l
+			switch r.Intn(3) {
+			case 0:
+				x.Sub(x, big.NewInt(int64(1+r.Intn(3)))) // top of the l-bit range
+			case 1:
+				x.Rsh(x, 1) // 2^(l-1): bottom of the range
+				x.Add(x, big.NewInt(int64(r.Intn(2))))
+			default:
+				x.Rsh(x, 1)
+				x.Add(x, new(big.Int).Rand(r, x))
+			}
+			if r.Intn(2) == 0 && k != "uint.mul" {
+				x.Neg(x)
+			}
+			return x
+		}
+		a, b = mk(la), mk(lb)
+		if la > ba {
+			a = genBig(r, ba)
+		}
+		if lb > bb {
+			b = genBig(r, bb)
+		}
+		cl := func(x *big.Int, bits int) *big.Int {
+			l := new(big.Int).Lsh(one, uint(bits))
+			if new(big.Int).Abs(x).Cmp(l) >= 0 {
+				return genBig(r, bits)
+			}
+			return x
+		}
+		a, b = cl(a, ba), cl(b, bb)
+	}
 	if strings.HasPrefix(k, "uint.") {
 		a.Abs(a)
 		b.Abs(b)
